@@ -14,7 +14,13 @@ from indep import snapedit_oracle as oracle
 GATED = {
     'snapmod-move-bank:none->N': 'a --move with a destination bank prefix but no source bank prefix ignores the destination prefix '
                                  '(treats both addresses as 64K addresses)',
+    'state-name-upper-case:szx-ignored': 'state attribute names are matched case-insensitively everywhere (spec.lower()) except in the guards of '
+                                         'SZX.set_registers_and_state: upper-case FFFD=/AY[n]=/ISSUE2= are applied to .z80 and silently ignored for .szx',
 }
+
+
+class Unreadable(Exception):
+    """A freshly written input snapshot that the independent decoder cannot read (already reported)."""
 
 
 def decode(path):
@@ -143,7 +149,12 @@ class Inputs:
         else:
             state = rand_state(rng, machine)
             self.snapshot.write_snapshot(path, ram, [f'{k}={v}' for k, v in regs.items()], [f'{k}={v}' for k, v in state.items()], machine)
-        st = decode(path)
+        try:
+            st = decode(path)
+        except (ValueError, IndexError, AssertionError, KeyError) as e:
+            self.chk.violation(f'input-unreadable-{fmt}-{machine}-{variant}', f'the independent decoder cannot read a freshly written snapshot: {type(e).__name__} {e}',
+                               {'kind': 'input', 'input': [seed, machine, fmt, variant, idx]})
+            raise Unreadable(str(e))
         # the independent decoder must see what was put in (ties the oracle's starting point to the generator, not to skoolkit)
         if [banks[b] for b in sorted(banks)] != [st['banks'].get(b) for b in sorted(banks)]:
             self.chk.violation(f'input-ram-{fmt}-{machine}-{variant}', 'independent decoder reads different RAM from a freshly written snapshot',
@@ -183,6 +194,16 @@ def state_names(machine, fmt):
     return names
 
 
+def current_state_value(st, name):
+    key = {'border': 'border', 'iff': 'iff1', 'im': 'im', 'tstates': 'tstates', 'issue2': 'issue2', '7ffd': 'out7ffd', 'fffd': 'outfffd',
+           'fe': 'outfe'}.get(name)
+    if key is not None:
+        return st.get(key)
+    if name.startswith('ay[') and st.get('ay') is not None:
+        return st['ay'][int(name[3:-1])]
+    return None
+
+
 def gen_state(rng, fmt, st, count, cursor, opt=('-s', '--state'), avoid=()):
     names = [n for n in state_names(st['machine'], fmt) if n not in avoid]
     frame = oracle.FRAME[st['machine']]
@@ -202,6 +223,10 @@ def gen_state(rng, fmt, st, count, cursor, opt=('-s', '--state'), avoid=()):
             v = rng.randrange(8) | rng.choice((0, 8, 16, 32))
         else:
             v = rng.choice((0, 255, rng.randrange(256)))
+        # a value that differs from the one the snapshot already has (an option that is not applied must show)
+        cur = current_state_value(st, name)
+        if cur is not None and v == cur:
+            v = {'border': (v + 1) % 8, 'iff': 1 - v, 'issue2': 1 - v, 'im': (v + 1) % 3, 'tstates': (v + 1) % frame}.get(name, (v + 1) % 256)
         spec = f'{name}={v}'          # the manual documents 0x numerals for --reg/--poke/--move/--patch, not for --state
         args += [rng.choice(opt), spec]
         ops.append(('state', spec, name))
@@ -209,10 +234,18 @@ def gen_state(rng, fmt, st, count, cursor, opt=('-s', '--state'), avoid=()):
 
 
 def ram_addr(rng, lo=0x4000, hi=0x10000):
+    """An address in lo..hi-1; hi-1 (a block that ends on the last cell) and the window boundaries are favoured."""
     r = rng.randrange(5)
     if r == 0:
-        return rng.choice([a for a in (0x4000, 0x4001, 0x7FFF, 0x8000, 0xBFFF, 0xC000, 0xFFFF, 0xFFFE) if lo <= a < hi])
+        return rng.choice([a for a in (0x4000, 0x4001, 0x7FFF, 0x8000, 0xBFFF, 0xC000, 0xFFFF, 0xFFFE) if lo <= a < hi] + [hi - 1])
+    if r == 1 and rng.randrange(2):
+        return hi - 1
     return rng.randrange(lo, hi)
+
+
+def bank_off(rng, n):
+    """Offset of an n-byte block inside a 16K bank; 16384 - n (the block ends on the last cell of the bank) is favoured."""
+    return 16384 - n if rng.randrange(6) == 0 else rng.randrange(16384 - n + 1)
 
 
 def bank_prefix(rng, beyond=True):
@@ -237,7 +270,7 @@ def gen_poke(rng, st, prefixed, hi=0x10000, opt=('-p', '--poke')):
         pre = f'{p}:'
     else:
         p = None
-        a = ram_addr(rng, 0x4000, hi - span)
+        a = ram_addr(rng, 0x4000, hi - span)     # a + span <= hi - 1: the last poked cell may be the last cell
         pre = ''
     b = a + span + (rng.randrange(step) if step > 1 else 0)
     if b > 0xFFFF:
@@ -252,13 +285,13 @@ def gen_move(rng, st, sp, dp, overrun=False):
     """sp/dp: None or a bank prefix (int)."""
     n = rng.choice((1, 2, 5, 32, 300, rng.randrange(1, 2000)))
     if sp is None and dp is None:
-        src = ram_addr(rng, 0x4000, 0x10000 - n)
-        dest = ram_addr(rng, 0x4000, 0x10000 - n)
+        src = ram_addr(rng, 0x4000, 0x10000 - n + 1)       # up to and including a block that ends at 0xFFFF
+        dest = ram_addr(rng, 0x4000, 0x10000 - n + 1)
         if rng.randrange(3) == 0:
             dest = min(max(0x4000, src + rng.randrange(-n, n + 1)), 0x10000 - n)      # overlapping
     else:
-        src = rng.randrange(16384 - n) if sp is not None else ram_addr(rng, 0x4000, 0x10000 - n)
-        dest = rng.randrange(16384 - n)
+        src = bank_off(rng, n) if sp is not None else ram_addr(rng, 0x4000, 0x10000 - n + 1)
+        dest = bank_off(rng, n)
         same = sp is not None and (dp is None or dp % 8 == sp % 8)
         if same and rng.randrange(2):
             dest = min(max(0, src + rng.randrange(-n, n + 1)), 16384 - n)               # overlapping, same bank
@@ -292,7 +325,7 @@ def gen_patch(rng, chk, st, prefixed, n_files):
         spec = f'{p}:{fmtnum(rng, a)},{fname}'
         label = (f'bank{p}' if p < 8 else 'bank>7') + (':cut-at-bank-end' if (a & 0x3FFF) + n > 16384 else '')
     else:
-        a = ram_addr(rng, 0x4000, 0x10000 - n)
+        a = ram_addr(rng, 0x4000, 0x10000 - n + 1)
         if rng.randrange(3) == 0:
             a = rng.choice((0x8000, 0xC000)) - rng.randrange(1, n + 1)     # across a window boundary
             a = max(a, 0x4000)
@@ -331,6 +364,41 @@ def gen_for(chk, crng, desc, st):
         names = state_names(machine, fmt)
         args, ops = gen_state(crng, fmt, st, min(4, len(names) - desc['start']), desc['start'])
         return args, ops, '+'.join(o[2].split('[')[0] for o in ops)
+    if kind == 'state1':
+        names = state_names(machine, fmt)
+        args, ops = gen_state(crng, fmt, st, 1, names.index(desc['name']))
+        return args, ops, 'only-' + desc['name'].split('[')[0]
+    if kind == 'pc0':
+        # version 1 cannot hold PC=0: snapmod has to write another version and keep everything else
+        spec = f'pc={crng.choice(("0", "0x0", "65536"))}'
+        args, ops = ['--reg', spec], [('reg', spec, 'pc')]
+        if crng.randrange(2):
+            a, o, _ = gen_poke(crng, st, False)
+            args, ops = args + a, ops + o
+        return args, ops, 'v1'
+    if kind == 'edge':
+        # blocks that end exactly on the last cell of the address space / of a bank
+        what = desc['what']
+        n = crng.choice((1, 2, 5, 300)) if what != 'patch-all' else 49152       # patch-all: a patch that replaces the whole 48K
+        banked = what.startswith('bank-')
+        end = 16384 if banked else 0x10000
+        pre = f'{crng.randrange(8)}:' if banked else ''
+        other = (bank_off(crng, n) if banked else crng.randrange(0x4000, 0x10000 - 2 * n)) if 'move' in what else None
+        if what.endswith('move-src-end'):
+            spec = f'{pre}{fmtnum(crng, end - n)},{n},{pre and str(crng.randrange(8)) + ":"}{fmtnum(crng, other)}'
+            return [crng.choice(('-m', '--move')), spec], [('move', spec)], what
+        if what.endswith('move-dest-end'):
+            spec = f'{pre}{fmtnum(crng, other)},{n},{pre and str(crng.randrange(8)) + ":"}{fmtnum(crng, end - n)}'
+            return [crng.choice(('-m', '--move')), spec], [('move', spec)], what
+        if what.endswith('poke-end'):
+            spec = f'{pre}{end - n}-{end - 1},^{crng.randrange(1, 256)}'
+            return [crng.choice(('-p', '--poke')), spec], [('poke', spec)], what
+        data = [crng.randrange(256) for _ in range(n)]
+        fname = os.path.join(chk.scratch, 'patch_edge.bin')
+        with open(fname, 'wb') as f:
+            f.write(bytes(data))
+        spec = f'{pre}{fmtnum(crng, end - n)},{fname}'
+        return ['--patch', spec], [('patch', spec, data)], what
     if kind == 'poke':
         return gen_poke(crng, st, desc['prefixed'])
     if kind == 'move-bank':
@@ -381,10 +449,10 @@ def snapmod_case(chk, mods, inputs, desc, case_seed=None, ident=None):
     if kind == 'overrun':
         # expected (oracle): the copy is cut at the end of the bank, like --patch; see GATED
         return finish_case(chk, snapshot, 'snapmod-move-bank-overrun', fail, st, ops, fmt, out, replay)
-    return finish_case(chk, snapshot, f'snapmod-{kind}:{label}', fail, st, ops, fmt, out, replay)
+    return finish_case(chk, snapshot, f'snapmod-{kind}:{label}', fail, st, ops, fmt, out, replay, common_only=kind == 'pc0')
 
 
-def finish_case(chk, snapshot, stem, fail, st, ops, fmt, out, replay, inpath=None):
+def finish_case(chk, snapshot, stem, fail, st, ops, fmt, out, replay, inpath=None, common_only=False):
     """Compare the tool's output with the oracle's expectation; returns the list of (key, desc)."""
     found = []
     if fail is not None:
@@ -403,6 +471,10 @@ def finish_case(chk, snapshot, stem, fail, st, ops, fmt, out, replay, inpath=Non
     if fmt == 'szx' and st['machine'] != '48K':
         exp.pop('issue2', None)
         got.pop('issue2', None)
+    if common_only:
+        # the output may be of a format version with more fields than the input (Z80 v1 -> v3): compare what the input has
+        for k in [k for k in got if k not in exp]:
+            got.pop(k)
     for field, e, g in oracle.diff_states(exp, got):
         if field in named or field.startswith('bank'):
             key = stem
@@ -473,6 +545,20 @@ def snapmod_sweep(chk, mods):
     for mk in kinds[:4]:
         for start in range(0, len(state_names(mk[0], mk[1])), 4):
             case(mk, kind='state', start=start)
+    # every state attribute on its own (an attribute that is applied only together with another one shows here)
+    for mk in kinds[:4]:
+        names = state_names(mk[0], mk[1])
+        for name in [n for n in names if not n.startswith('ay[')] + ([f'ay[{rng.randrange(16)}]'] if mk[0] != '48K' else []):
+            case(mk, kind='state1', name=name)
+    # PC=0 on a version 1 Z80 snapshot (the format cannot represent it)
+    for _ in range(chk.scale(2, 8)):
+        case(('48K', 'z80', 'v1'), kind='pc0')
+    # blocks ending exactly on the last cell (0xFFFF, or 16383 of a bank): source and destination of a move, poke range, patch
+    for what in ('move-src-end', 'move-dest-end', 'poke-end', 'patch-end'):
+        for banked in (False, True):
+            for _ in range(chk.scale(1, 4)):
+                case(pick(only128=banked), kind='edge', what=('bank-' if banked else '') + what)
+    case(pick(), kind='edge', what='patch-all')
     # pokes: three operators, ranges, steps, bank prefixes 0..7 and beyond
     for _ in range(chk.scale(70, 500)):
         prefixed = rng.randrange(2) == 0
@@ -497,6 +583,28 @@ def snapmod_sweep(chk, mods):
         case(pick(), kind='mixed')
     # observation (not part of the property as documented: "P is the RAM bank (0-7; 128K only)")
     probe_48k_prefix(chk, mods, inputs)
+    probe_state_name_case(chk, mods)
+
+
+def probe_state_name_case(chk, mods):
+    """The same state written with upper-case attribute names must read back identically from both formats (finding probe, see GATED)."""
+    snapshot = mods[0]
+    for machine, ram, specs, fields in (('128K', [[0] * 16384 for _ in range(8)], ['FFFD=9', 'AY[3]=44', 'BORDER=3'], ('outfffd', 'ay', 'border')),
+                                        ('48K', [0] * 49152, ['ISSUE2=1', 'IM=2'], ('issue2', 'im'))):
+        got = {}
+        for fmt in ('z80', 'szx'):
+            path = os.path.join(chk.scratch, f'case.{fmt}')
+            snapshot.write_snapshot(path, ram, [], specs, machine)
+            try:
+                st = decode(path)
+            except (ValueError, IndexError, AssertionError, KeyError):
+                break                        # unreadable output: reported by the round-trip checks, nothing to compare here
+            got[fmt] = {k: st.get(k) for k in fields}
+        chk.case('probe-state-name-case', ('case', machine))
+        if len(got) == 2 and got['z80'] != got['szx']:
+            diff = {k: (got['z80'][k], got['szx'][k]) for k in got['z80'] if got['z80'][k] != got['szx'][k]}
+            report(chk, [('state-name-upper-case:szx-ignored', f'write_snapshot(..., state={specs}, {machine}): .z80 and .szx read back differently (z80, szx): {diff}')],
+                   {'kind': 'statecase'})
 
 
 def probe_48k_prefix(chk, mods, inputs):
@@ -521,9 +629,15 @@ def probe_48k_prefix(chk, mods, inputs):
 def bin2sna_sweep(chk, mods, bin2sna):
     for n in range(chk.scale(60, 600)):
         bin2sna_case(chk, mods, bin2sna, chk.rng.getrandbits(48))
+    # directed: the register / state options that have a dedicated option, when that option is not given
+    for which in ('pc', 'sp', 'border'):
+        done = 0
+        for _ in range(40):
+            if done < chk.scale(2, 6):
+                done += bin2sna_case(chk, mods, bin2sna, chk.rng.getrandbits(48), directed=which) is not None
 
 
-def bin2sna_case(chk, mods, bin2sna, case_seed):
+def bin2sna_case(chk, mods, bin2sna, case_seed, directed=None):
     import random
     rng = random.Random(case_seed)
     snapshot = mods[0]
@@ -576,15 +690,19 @@ def bin2sna_case(chk, mods, bin2sna, case_seed):
     # documented defaults
     exp_sp = exp_pc = org
     exp_border = 7
+    given = set()
     if rng.randrange(3) == 0:
         exp_pc = rng.randrange(65536)
         base_args += [rng.choice(('-s', '--start')), fmtnum(rng, exp_pc)]
+        given.add('pc')
     if rng.randrange(3) == 0:
         exp_sp = rng.randrange(65536)
         base_args += [rng.choice(('-p', '--stack')), fmtnum(rng, exp_sp)]
+        given.add('sp')
     if rng.randrange(3) == 0:
         exp_border = rng.randrange(8)
         base_args += [rng.choice(('-b', '--border')), str(exp_border)]
+        given.add('border')
     machine = '48K' if exp_page is None else '128K'
     # 1. the base conversion against the documentation
     fail = run_tool(bin2sna.main, base_args + [binf, out])
@@ -594,7 +712,11 @@ def bin2sna_case(chk, mods, bin2sna, case_seed):
     if fail is not None:
         chk.violation(f'{stem}:{fail.split(":")[0]}', f'bin2sna {" ".join(base_args)}: {fail}', replay)
         return
-    st = decode(out)
+    try:
+        st = decode(out)
+    except (ValueError, IndexError, AssertionError, KeyError) as e:
+        chk.violation(f'{stem}:unreadable-output', f'bin2sna {" ".join(base_args)}: the independent decoder cannot read the output: {type(e).__name__} {e}', replay)
+        return
     doc = {'machine': machine, 'sp': exp_sp, 'pc': exp_pc, 'border': exp_border, 'iff1': 1, 'iff2': 1, 'im': 1, 'tstates': 34943}
     if machine == '48K':
         doc['issue2'] = 0
@@ -613,15 +735,26 @@ def bin2sna_case(chk, mods, bin2sna, case_seed):
     cursor += 3
     kind = rng.choice(('reg', 'state', 'poke', 'mixed'))
     args, ops, label = [], [], ''
+    if directed is not None:
+        # --reg pc / --reg sp / --state border when the dedicated option (--start / --stack / --border) is not given
+        kind = 'directed'
+        if directed in ('pc', 'sp'):
+            spec = f'{directed}={fmtnum(rng, rng.choice((0, 1, 255, 256, 32768, 65535, rng.randrange(65536))))}'
+            args, ops, label = [rng.choice(('-r', '--reg')), spec], [('reg', spec, directed)], directed
+        else:
+            spec = f'border={rng.choice([b for b in range(8) if b != 7])}'
+            args, ops, label = [rng.choice(('-S', '--state')), spec], [('state', spec, 'border')], 'border'
+        if directed in given:
+            return
     if kind in ('reg', 'mixed'):
         a, o = gen_regs(rng, fmt, st, 3, cursor)
         # --start/--stack are documented as equivalent to --reg pc/sp; do not give both
-        keep = [i for i, x in enumerate(o) if not (x[2] in ('pc', 'sp'))]
+        keep = [i for i, x in enumerate(o) if not (x[2] in given)]
         a = [y for i in keep for y in a[2 * i:2 * i + 2]]
         o = [o[i] for i in keep]
         args, ops, label = args + a, ops + o, '+'.join(x[2] for x in o)
     if kind in ('state', 'mixed'):
-        avoid = ('7ffd', 'border')     # -b/--border and --page are documented as the equivalent --state options
+        avoid = ('7ffd',) + (('border',) if 'border' in given else ())   # -b/--border and --page are documented as the equivalent --state options
         a, o = gen_state(rng, fmt, st, 3, cursor, opt=('-S', '--state'), avoid=avoid)
         args, ops, label = args + a, ops + o, (label + '+' if label else '') + '+'.join(x[2].split('[')[0] for x in o)
     if kind in ('poke', 'mixed'):
@@ -633,8 +766,8 @@ def bin2sna_case(chk, mods, bin2sna, case_seed):
     out2 = os.path.join(chk.scratch, f'b2s2.{fmt}')
     fail = run_tool(bin2sna.main, base_args + args + [binf, out2])
     chk.case(f'bin2sna-{kind}-{mode}-{fmt}', ('b2s-opt', n), {'tool': 'bin2sna', 'args': base_args + args, 'fmt': fmt})
-    replay = {'kind': 'bin2sna', 'case_seed': case_seed, 'args': base_args + args, 'fmt': fmt, 'mode': mode}
-    finish_case(chk, snapshot, f'bin2sna-{kind}:{label}', fail, st, ops, fmt, out2, replay)
+    replay = {'kind': 'bin2sna', 'case_seed': case_seed, 'args': base_args + args, 'fmt': fmt, 'mode': mode, 'directed': directed}
+    return finish_case(chk, snapshot, f'bin2sna-{kind}:{label}', fail, st, ops, fmt, out2, replay)
 
 
 def replay_case(chk, mods, bin2sna, data):
@@ -644,9 +777,14 @@ def replay_case(chk, mods, bin2sna, data):
     if data['kind'] == 'snapmod':
         snapmod_case(chk, mods, Inputs(chk, mods[0]), data['desc'], data['case_seed'], data['input'])
     elif data['kind'] == 'bin2sna':
-        bin2sna_case(chk, mods, bin2sna, data['case_seed'])
+        bin2sna_case(chk, mods, bin2sna, data['case_seed'], directed=data.get('directed'))
+    elif data['kind'] == 'statecase':
+        probe_state_name_case(chk, mods)
     elif data['kind'] == 'input':
-        Inputs(chk, mods[0]).by_id(data['input'])
+        try:
+            Inputs(chk, mods[0]).by_id(data['input'])
+        except Unreadable:
+            pass
     after = (len(chk.violations), sum(v['count'] for v in chk.violations),
              sum(v['count'] for v in chk.extra.get('unlisted_findings', {}).values()))
     return after != before
